@@ -141,6 +141,24 @@ Lemma frs_known : forall p f fi ci base p0 a x r k, frs p f fi ci base p0 a x ->
   xsget base x r = Some k.
 Proof. intros p f fi ci base p0 a x r k (_ & F2 & _) H. unfold xsget, sget. apply F2. exact H. Qed.
 
+(* the stack grows by zero words at its end *)
+Lemma lite_xset_stack : forall x st, lite x (xset_stack x st).
+Proof. intros; repeat split. Qed.
+
+Lemma frs_grow : forall p f fi ci base p0 a x zs,
+  frs p f fi ci base p0 a x -> frs p f fi ci base p0 a (xset_stack x (x_stack x ++ zs)).
+Proof.
+  intros p f fi ci base p0 a x zs (F1 & F2 & F3 & F4 & F5 & F6 & F7 & F8 & F9).
+  assert (Hst : x_stack (xset_stack x (x_stack x ++ zs)) = x_stack x ++ zs) by reflexivity.
+  unfold frs, stack_ok in *. rewrite Hst, lenN_app.
+  split. { destruct F1 as [F1|F1]; [left; exact F1|right; lia]. }
+  split. { intros r k Hl. specialize (F2 r k Hl). rewrite rd1_nth_error in *.
+           rewrite nth_error_app1; [exact F2|]. apply nth_error_Some. congruence. }
+  split; [exact F3|]. split; [lia|]. split; [exact F5|].
+  split; [intros s Hs; rewrite (lite_cur x _ (lite_xset_stack x _)) in Hs; exact (F6 s Hs)|].
+  split; [exact F7|]. split; [exact F8|]. intros H. specialize (F9 H). lia.
+Qed.
+
 Lemma rd1_nil : forall T (i : N), rd1 (@nil T) i = None.
 Proof. intros. unfold rd1. destruct (i <? lenN []); [destruct (nn i); reflexivity|reflexivity]. Qed.
 
@@ -193,6 +211,26 @@ Section Step.
     - eapply lite_ok; eauto.
     - apply xext_weaken. exact E2.
     - rewrite Hst. reflexivity.
+  Qed.
+
+  (* the stack grows at its end, then n words are written at register d *)
+  Lemma ok_grow_write : forall ci x fl a zs d n vs,
+    frs p f fi ci base p0 a x -> xok p x -> lenN vs = n ->
+    xstep_ok p f fi ci base p0 pc x [(pc + 1, awrite a d n)]
+      (XNext 1 (xsput base (xset_stack x (x_stack x ++ zs)) d vs) fl).
+  Proof.
+    intros ci x fl a zs d n vs F Hx Hn.
+    set (x1 := xset_stack x (x_stack x ++ zs)).
+    assert (F1 : frs p f fi ci base p0 a x1) by (apply frs_grow; exact F).
+    assert (L : lite x (xsput base x1 d vs)) by (eapply lite_trans; [apply lite_xset_stack|apply lite_xsput]).
+    apply xok_next.
+    - apply frs_write; assumption.
+    - eapply lite_ok; eauto.
+    - apply xext_weaken. eapply xext_lite; [apply xext_refl|exact L].
+    - rewrite (xsput_firstn ci x1 a d vs F1). destruct F as (_ & _ & G3 & G4 & _).
+      change (x_stack x1) with (x_stack x ++ zs). rewrite firstn_app.
+      replace (nn (base - 1) - length (x_stack x))%nat with O by (unfold nn, lenN in *; lia).
+      rewrite firstn_O, app_nil_r. reflexivity.
   Qed.
 
   Lemma dgood_refl : forall x, xok p x -> dgood p x (DOk x).
@@ -323,29 +361,19 @@ Section Step.
       destruct Hd as (_ & _ & Hc). unfold x_stack. rewrite Hc. reflexivity.
     - (* XGetUp *)
       destruct (rd1 (f_up f) i) as [u|] eqn:Eu; [|discriminate].
-      match type of Hflow with (if ?c then _ else _) = _ => destruct c eqn:Econd; [|discriminate] end.
       inversion Hflow; subst succs. clear Hflow.
       destruct F as (F1 & F2 & F3 & F4 & F5 & F6 & F7 & F8 & F9).
       destruct ci as [c|]; [|cbn in F8; rewrite F8, rd1_nil in Eu; discriminate].
-      destruct F8 as [Hb Hfn]. specialize (F9 ltac:(discriminate)).
+      destruct F8 as [Hb Hfn].
       case_eq (sm_get (x_cls x) c); [intros cl Hg|reflexivity].
       destruct (proj2 Hok c cl Hg) as (g & G1 & G2 & G3). rewrite (Hfn cl Hg), Hfi in G1. inversion G1; subst g.
       destruct (rd1_lt _ (c_upv cl) i) as [cell Hcell]; [rewrite G2; eapply rd1_Some; eauto|]. rewrite Hcell.
       assert (F : frs p f fi (Some c) base p0 a x).
-      { unfold frs. repeat (split; [assumption|]). split; [split; assumption|]. intros _; exact F9. }
-      (* no growth of the stack before the source is read *)
-      assert (Hhaz : forall size, size = u_size u ->
-                (base + d + size <=? lenN (x_stack x)) || ((size =? 1) && (base + d <=? lenN (x_stack x))) = true).
-      { intros size ->. apply orb_true_iff in Econd. apply orb_true_iff. destruct Econd as [Ha|Hb'].
-        - left. apply andb_true_iff in Ha. destruct Ha as [H1 H2]. apply N.leb_le in H1. apply N.leb_le in H2. apply N.leb_le.
-          destruct F1 as [F1|F1]; lia.
-        - right. apply andb_true_iff in Hb'. destruct Hb' as [H1 H2]. rewrite H1. apply N.leb_le in H2. apply N.leb_le.
-          destruct F1 as [F1|F1]; lia. }
+      { unfold frs. repeat (split; [assumption|]). split; [split; assumption|]. exact F9. }
       destruct (nth_error (x_cells x) (nn cell)) as [[pos size isc|vs isc]|]; [| |reflexivity].
       + unfold width_ok. rewrite Eu. destruct (N.eqb_spec size (u_size u)) as [Hw|Hw]; [|reflexivity]. cbn [negb].
-        destruct (rd_range (x_stack x) (c_base cl + pos) size) as [vs|] eqn:Hr; [|reflexivity].
-        rewrite (Hhaz size Hw). apply rd_range_Some in Hr. destruct Hr as [_ Hl].
-        eapply ok_dyn_write; [exact F|apply dgood_refl; exact Hok|apply lite_refl|reflexivity|congruence].
+        apply ok_grow_write; [exact F|exact Hok|]. subst size.
+        unfold lenN, nn. rewrite firstn_length, skipn_length, app_length, repeat_length. lia.
       + unfold width_ok. rewrite Eu. destruct (N.eqb_spec (lenN vs) (u_size u)) as [Hw|Hw]; [|reflexivity]. cbn [negb].
         eapply ok_dyn_write; [exact F|apply dgood_refl; exact Hok|apply lite_refl|reflexivity|exact Hw].
     - (* XSetUp *)
